@@ -260,3 +260,21 @@ reg("C28", "exploration", "TLA+ reference of the KNX IP Secure CCM construction 
     "sent and the verdicts on changed notifies, the client's verdict on correct and changed SessionResponse MACs and the SessionAuthenticate MAC it produces must agree with the reference.",
     "Trusted: TLC's evaluator; PBKDF2 and X25519 come from the cryptography package on both sides (not specified in TLA+).",
     "DESIGN.md section 5 C28")
+
+reg("C04", "exploration", "TLA+ table of application services per ten-bit APCI value (ApciTable.tla) and law DecodeOk evaluated by TLC on every recorded APCI.from_knx outcome (watchdog)",
+    "All APDUs of 0 and 1 octets, all (a stride in quick) of 2 octets, and for each of the 1024 ten-bit codes APDUs of every length 3..24 (plus 40, 64, 254, 255) with constant and "
+    "random content are decoded by the real APCI.from_knx under a 1 s watchdog; TLC judges each outcome against the service table: only a service, ConversionError or "
+    "UnsupportedAPCIService; for a code of an implemented service never 'unsupported' and never another service; for other codes 'unsupported'.",
+    "Trusted: TLC; the service table (a frozen transcription, anchored by ASSUMEs for well-known codes).",
+    "DESIGN.md section 5 C04", driver="c04", entry="run04")
+reg("C05", "exploration", "TLA+ table of reserved bits per service and law ReencodeOk (Apci.tla) evaluated by TLC on recorded decode / encode / decode sessions",
+    "Every APDU of the C04 plan that decodes is encoded again (a refusal is allowed), its calculated_length compared, the octets compared bit by bit and the result decoded once more; "
+    "TLC judges: same length, correct reported length, equal object, and every differing bit is one the reserved-bit table of the service lists.",
+    "Trusted: TLC; the reserved-bit table (13 service groups, each annotated with the field it comes from).",
+    "DESIGN.md section 5 C05", driver="c04", entry="run05")
+reg("C06", "exploration", "TLA+ law EncodeOk (refused or equal) evaluated by TLC on recorded construct / encode / decode sessions of every service class with boundary values per argument",
+    "Each of the 84 service classes (SecureAPDU is covered by C15/C19) is built with boundary values for every constructor argument (integers around every power of two up to 2^32 and -1, "
+    "byte strings of every length 0..20 and around 63 / 250..256, address extremes, group values up to 255 octets, every ReturnCode) and with random pairs of arguments; the object is "
+    "encoded and decoded; TLC judges: refused (any exception at the call) or an equal object of the same class - never a different one.",
+    "Trusted: TLC; equality is the library's own.",
+    "DESIGN.md section 5 C06", driver="c04", entry="run06")
